@@ -6,9 +6,10 @@ COQCHK = True
 TRUSTED = ['translator gen/gen_rng.py (constants, tempering shifts, loop shapes of rng.rs -> coq/Gen/RngConsts.v)',
            'hand model coq/Rng/MT.v tied by the differential run on whole streams and on raw values fed through the scad_tree_verif hook',
            'reference spec coq/Rng/MTSpec.v (MT19937 recurrence with the 6069 seeding) is read, not derived']
-ASSUMPTIONS = ['i32_minmax / f32_minmax / f64_minmax ranges are explored on the implementation (bounds oracle), not yet proved for all arguments',
-               'f32 arithmetic of rustc follows IEEE-754 round-to-nearest-even (u as f32, f32 mul)']
+ASSUMPTIONS = ['f32/f64 arithmetic of rustc follows IEEE-754 round-to-nearest-even (u as f32, f32/f64 add, sub, mul); the range theorems for f32_minmax/f64_minmax are stated on that semantics (Flocq FLT format, no overflow)',
+               'f32_minmax is tied by a bounds oracle only (Coq has no primitive binary32); f64_minmax is compared bit for bit with the binary64 model']
 IMPORTS = 'From Coq Require Import NArith ZArith List.\nImport ListNotations.\nFrom SCAD Require Import Rng.MT Run.RngRun.'
+IMPORTS_F = 'From Coq Require Import NArith ZArith List Floats.\nImport ListNotations.\nFrom SCAD Require Import Rng.MT Run.RngRun.'
 
 def ref_stream(seed, n):
     """independent reference MT19937 (6069 seeding), used only to search for a failing input"""
@@ -34,6 +35,7 @@ def run(ctx):
     S = [l[2:] for l in out.split('\n') if l.startswith('S ')]
     R = [l[2:] for l in out.split('\n') if l.startswith('R ')]
     B = [l[2:].split() for l in out.split('\n') if l.startswith('B ')]
+    D = [l[2:] for l in out.split('\n') if l.startswith('D ')]
     failures = []
     for l in S:
         nums = [int(x) for x in re.findall(r'(\d+)%N', l)]
@@ -47,8 +49,13 @@ def run(ctx):
     try:
         sv = vlib.run_shards('C19', IMPORTS, 'N * list N', 'stream_verdict', S, per_shard=max(1, len(S) // 16 + 1))
         rv = vlib.run_shards('C19r', IMPORTS, 'N * N * Z * Z * Z', 'range_verdict', R, per_shard=max(1, len(R) // 16 + 1))
+        dv = vlib.run_shards('C19d', IMPORTS_F, 'N * float * float * float', 'f64_verdict', D, per_shard=max(1, len(D) // 16 + 1))
     except RuntimeError as e:
-        ctx['broken'].append(('correspondence-run', str(e)[-2000:])); sv = [[0]] * len(S); rv = [[0]] * len(R)
+        ctx['broken'].append(('correspondence-run', str(e)[-2000:])); sv = [[0]] * len(S); rv = [[0]] * len(R); dv = [[0]] * len(D)
+    for l, v in zip(D, dv):
+        if v[0] != 0:
+            failures.append({'clause': 'f64_minmax_vs_model' if v[0] & 1 else 'f64_minmax_in_[min,max]', 'key': 'f64model%d' % v[0], 'case': l,
+                             'what': 'f64_minmax differs from min + (max - min) * (f32_0_1 as f64) evaluated in binary64 inside Coq' if v[0] & 1 else 'f64_minmax leaves [min, max]'})
     for l, v in zip(S, sv):
         if v[0] != 0:
             seed = int(re.match(r'\((\d+)%N', l).group(1))
@@ -77,10 +84,10 @@ def run(ctx):
             failures.append({'clause': 'f64_minmax_in_[min,max]', 'key': 'f64range', 'raw': u, 'min': dmin, 'max': dmax, 'result': dv})
     samples = [{'stream_seed': int(re.match(r'\((\d+)%N', l).group(1)), 'first_outputs': [int(x) for x in re.findall(r'(\d+)%N', l)[1:5]]} for l in S[:3]]
     samples += [{'raw_case': l} for l in R[5:8]]
-    return {'evaluations': len(S) * slen + len(R) * 4, 'distinct_nontrivial': len(set(S)) + len(set(R)), 'samples': samples, 'failures': failures,
+    return {'evaluations': len(S) * slen + len(R) * 4 + len(D), 'distinct_nontrivial': len(set(S)) + len(set(R)), 'samples': samples, 'failures': failures,
             'rule': 'streams: %d seeds (0, 1, 2^31, 2^32-1, 4357, 5489, random) x %d outputs (>= 2 regenerations) compared word for word with the Coq model; '
                     'raw values (powers of two +-2, top/bottom 300, f32 rounding boundaries of every binade, random) fed through verif_from_state into f32_0_1 / i32_minmax (exact comparison with the model) '
-                    'and f32_minmax / f64_minmax (bounds oracle). distinct = distinct streams + distinct raw cases' % (len(S), slen),
+                    'f64_minmax (bit-exact comparison with the binary64 model) and f32_minmax (bounds oracle). distinct = distinct streams + distinct raw cases' % (len(S), slen),
             'extra': {'streams': len(S), 'stream_length': slen, 'raw_values': len(R)}}
 
 def match_known(f, known): return vlib.match_known_default(f, known)
